@@ -35,6 +35,12 @@ Theorem C04_exact_one_event : forall c T s x t, Forall sstep_ok s -> Forall is_e
 Proof. exact (exact_one_event gen_failed_one gen_failed_one_spec). Qed.
 Print Assumptions C04_exact_one_event.
 
+(* the fold "x + V n'" used in [chain]/[good] is, entry by entry, x_i + sum_j n'_j * V[i][j] *)
+Theorem C04_delta_entrywise : forall c nS, dims_ok c nS -> forall n x i, length x = nS ->
+  nth i (apply_counts update_plus c x 0 n) 0 = nth i x 0 + vn_entry c i 0 n.
+Proof. intros c nS H n x i Hl. exact (apply_counts_entry c nS H n x 0%nat i Hl). Qed.
+Print Assumptions C04_delta_entrywise.
+
 (* non-vacuity: a two-event birth/death schedule over one state is a well-formed schedule and yields a 2-step path *)
 Example C04_example :
   let c := {| V := [[Q2Qc 1]; [Q2Qc (-1)]]; lims := [(Some (Q2Qc 0), None)] |} in
